@@ -43,6 +43,8 @@ CHECKS = {
             "default JSON marshaler for ints / plain ASCII strings / byte slices; integers below 2^31 in node bytes, larger magnitudes for layers via 8-byte limbs"),
     "C19": ("fault_enumeration", "7.C19", "enumerated perturbations of the root record, the loader configuration and the stored top node driven through the real LoadMast; TLC evaluates MustReject on every event (TraceLoad.tla, layers from Format.tla) and demands an error, not a panic or a tree",
             "structural decodability is judged by the harness's lenient decoders; nothing is demanded when MustReject does not hold"),
+    "C11": ("exploration", "7.C11", "TLC exhaustive runs of Cow.tla (objects, flags, cache, clone, persist: SharedObjectsNeverWritten, UnsharedHasOneOwner, DirtyImpliesPrivate) and Flush.tla (PublishedObjectsAreFrozen, NoInPlaceEditOfPublished); TLC-generated programs (MastGen.tla) run by concurrent goroutines under the Go race detector over frozen lock-free and live shared caches, a steered publication window, and each goroutine's history validated by TLC against TraceMast.tla",
+            "the race detector judges the executions that occur; harness synchronisation only where production code synchronises"),
 }
 
 NOT_YET = {
